@@ -197,9 +197,9 @@ Theorem C08_vsr_checkZ_sound :
 Proof. exact vsr_checkZ_sound. Qed.
 Print Assumptions C08_vsr_checkZ_sound.
 
-(* The BLS12-381 scalar field order r is prime — proved in Coq (Tbls/PrimeR.v: Lucas test with the
-   complete factorisation of r - 1, base 7, factors certified by trial division; computations on
-   binary integers by vm_compute).  Hence the two statements above hold at m = r unconditionally. *)
+(* The BLS12-381 scalar field order r is prime — proved in Coq (Tbls/PrimeR.v: Pocklington's test with
+   the factored part 2^32 * 3 * 906349^2 * 254760293^2 > sqrt r of r - 1, base 7, factors certified by
+   trial division; computations on binary integers by vm_compute).  Hence the two statements above hold at m = r unconditionally. *)
 Theorem C08_r_prime : prime (BinInt.Z.to_nat r).
 Proof. exact r_prime. Qed.
 Print Assumptions C08_r_prime.
